@@ -59,6 +59,19 @@ CLAIMED = {
             'Bound: sequence length 3 / 5; state space of the dispatcher is a map over 3 class names, so length 5 reaches every '
             'reachable state.',
             'DESIGN.md §6 C20'),
+    'C16': ('Direct SMT encoding of the object the real code produces: for every pattern of the documented grammar the regex '
+            'string returned by the real Router.patternToRegex is parsed with CPython\'s own re parser and translated node for '
+            'node into a z3 regular-expression term; two language inclusions over an unbounded symbolic path are decided per '
+            'pattern: must(p) <= L(regex) and, with capture groups bracketed by marker characters, L(regex<>) <= may<>(p), so '
+            'both the match set and every possible binding are covered. Route selection runs the real getRoute/dispatch with '
+            'pattern matching answered by the solver: first registered matching route of the method, else None/404.',
+            'Trusted: z3 sequence/regex theory, the sre->z3 translation (only the constructs the router emits; anything else is '
+            'Unsupported = inconclusive), Python re implementing its own parse tree. Bounds: patterns <= 3 (thorough 4) segments over '
+            '{a, ab, a.b, :x} + one trailing ? / + / * parameter; route tables <= 2 (thorough 3) routes; the path is unbounded but '
+            'ranges over non-control characters (a request line cannot carry control characters such as \\n). Where the '
+            'documentation leaves a reading open (empty interior segments inside + / * captures, the tolerated trailing slash '
+            'inside the capture) may(p) accepts both readings.',
+            'DESIGN.md §6 C16'),
 }
 
 NOT_YET = 'check not built yet in this round (planned: see DESIGN.md §6); not claimed'
